@@ -253,7 +253,7 @@ func (rs *refStream) start(c *harness.Ctx, e *refEnd) {
 		var off int64
 		for _, w := range rs.plan {
 			if w.PauseMs > 0 {
-				time.Sleep(msec(w.PauseMs))
+				c.S.Sleep(msec(w.PauseMs))
 			}
 			var out bytes.Buffer
 			rem := w.Size
